@@ -32,6 +32,9 @@ type c18PosCase struct {
 	// stability fee in force during each interval (governance updates the product at the interval's start when it
 	// differs from the previous one); empty = the product's fee throughout
 	Fees []string `json:"fee_schedule,omitempty"`
+	// locker saving rate in force during each interval (governance updates the collector's lookup table at the
+	// interval's start when it differs from the previous one, in both runs); empty = the configured rate throughout
+	LRates []string `json:"locker_rate_schedule,omitempty"`
 }
 
 func c18PosRun(t rec.TB, r *rec.Rec, cs *c18PosCase) {
@@ -65,6 +68,12 @@ func c18PosRun(t rec.TB, r *rec.Rec, cs *c18PosCase) {
 					IsVaultActive: pv.IsVaultActive, MinCr: pv.MinCr, DebtCeiling: pv.DebtCeiling, DebtFloor: pv.DebtFloor, MinUsdValueLeft: pv.MinUsdValueLeft}); err != nil {
 					panic(err)
 				}
+			}
+			if hasLocker && i > 0 && len(cs.LRates) == len(cs.T) && cs.LRates[i] != cs.LRates[i-1] {
+				do(vOp{K: "lsr", L: cs.Locker, A: cs.LRates[i]})
+			}
+			if hasLocker && len(cs.LRates) == len(cs.T) {
+				lrate = cs.LRates[i]
 			}
 			do(vOp{K: "block", Dt: dt})
 			last := i == len(cs.T)-1
@@ -165,7 +174,37 @@ func c18PosRun(t rec.TB, r *rec.Rec, cs *c18PosCase) {
 	} else {
 		r.Class("fee-schedule-with-changes")
 	}
-	if new(big.Rat).Sub(oftenL, onceL).Cmp(tolFor(onceL, lockP, lockRate)) > 0 {
+	lockExtra := new(big.Rat)
+	if lsched := len(cs.LRates) == len(cs.T); lsched && len(cs.Cfg.Lockers) > 0 {
+		// reference for the locker: the deposit grown over the rate schedule (savings are credited to the balance, so
+		// they compound at every calculation; the exponential law makes that equal to the single accrual)
+		lg := 1.0
+		for i, dt := range cs.T {
+			rate, _ := sdk.MustNewDecFromStr(cs.LRates[i]).Float64()
+			lg *= math.Pow(1+rate, float64(dt)/31557600)
+			if sdk.MustNewDecFromStr(cs.LRates[i]).GT(sdk.MustNewDecFromStr(lockRate)) {
+				lockRate = cs.LRates[i]
+			}
+		}
+		lp, _ := new(big.Float).SetInt(mustInt(cs.LockAmt).BigInt()).Float64()
+		wantL := lp * lg
+		slackL := 1e-6*wantL + float64(4*len(cs.T)) + 1
+		for _, x := range []struct {
+			name string
+			v    *big.Rat
+		}{{"few-triggers", onceL}, {"many-triggers", oftenL}} {
+			if got, _ := x.v.Float64(); got > wantL+slackL {
+				r.Fail(t, "C18.savings-within-single-accrual-over-the-schedule", "locker-savings,"+x.name, cs, "locker is worth %.6f; deposit %s grown over %v at saving rates %v gives %.6f", got, cs.LockAmt, cs.T, cs.LRates, wantL)
+			}
+		}
+		r.Class("locker-rate-schedule-with-changes")
+		// whole units of savings are credited to the balance at every calculation and earn savings from then on,
+		// while the fraction below one unit waits in the tracker: with rate changes in between, an extra calculation
+		// can promote such a fraction up to one unit earlier. That is not "the same principal": allow one unit's
+		// growth per calculation point.
+		lockExtra = new(big.Rat).SetFloat64(float64(2*len(cs.T)) * (lg - 1))
+	}
+	if new(big.Rat).Sub(oftenL, onceL).Cmp(new(big.Rat).Add(tolFor(onceL, lockP, lockRate), lockExtra)) > 0 {
 		r.Fail(t, "C18.more-triggers-never-earn-more", "locker-savings", cs, "locker is worth %s after intermediate calculations / rate settlement, %s after a single one", oftenL.FloatString(18), onceL.FloatString(18))
 	}
 	if onceV.Sign() > 0 {
@@ -230,6 +269,12 @@ func TestC18_position(t *testing.T) {
 				cs.Fees = []string{p.Stability}
 				for i := 1; i < n; i++ {
 					cs.Fees = append(cs.Fees, rapid.SampledFrom([]string{p.Stability, "0", "0", "0.05", "0.5"}).Draw(rt, fmt.Sprintf("fee%d", i)))
+				}
+			}
+			if len(cs.Cfg.Lockers) > 0 && rapid.Bool().Draw(rt, "lrateschedule") {
+				cs.LRates = []string{cs.Cfg.Lockers[cs.Locker].LSR}
+				for i := 1; i < n; i++ {
+					cs.LRates = append(cs.LRates, rapid.SampledFrom([]string{cs.LRates[0], "0", "0", "0.05", "0.5"}).Draw(rt, fmt.Sprintf("lrate%d", i)))
 				}
 			}
 			c18PosRun(rt, r, cs)
